@@ -266,11 +266,13 @@ let bld_setup fields =
 (* the oracle itself is the extracted Model/SrvE2E.v ([e2e_step]: the scenario operation, settling, restarts of faulted workers);
    this function only parses the operation and prints what happened *)
 let poisoned : int list ref = ref []
+(* connections of abortive clients (op A): their service call ends by itself as soon as it has started *)
+let abortive : int list ref = ref []
 
 let parse_e2e (o : string) : e2e_op =
   let rest = String.sub o 1 (String.length o - 1) in
   match o.[0] with
-  | 'c' -> XConnect (nat_of_int (int_of_string rest))
+  | 'c' | 'A' -> XConnect (nat_of_int (int_of_string rest))
   | 'f' -> XFinish (n_of_int (int_of_string rest))
   | 'P' -> XPause
   | 'R' -> XResume
@@ -302,7 +304,15 @@ let bld_step lz call_of (st, cid) (o : string) : (state * int) * string =
          then failwith ("finish of a connection that is not in progress: " ^ o)
      | XKill _ | XKillConnect _ -> poisoned := (cid + 1) :: !poisoned
      | _ -> ());
+    if o.[0] = 'A' then abortive := (cid + 1) :: !abortive;
     let (st', next') = e2e_step lz st (n_of_int (cid + 1)) op in
+    (* service calls of abortive clients that have started end at once: a Finish (an ordinary scenario operation of the Gallina
+       oracle) for each, until none is in progress *)
+    let rec finish_abortive (st, next) =
+      match List.find_opt (fun c -> List.exists (fun wk -> List.exists (fun cn -> int_of_n cn.c_id = c) wk.w_picked) st.ws) !abortive with
+      | Some c -> finish_abortive (e2e_step lz st next (XFinish (n_of_int c)))
+      | None -> (st, next) in
+    let (st', next') = finish_abortive (st', next') in
     let cid' = int_of_n next' - 1 in
     let evs = take (List.length st'.trace - nev) st'.trace in
     (match op with
@@ -316,7 +326,10 @@ let bld_step lz call_of (st, cid) (o : string) : (state * int) * string =
       | EvDispatch (c, tok, _, idx, _) when not (List.mem (int_of_n c) !poisoned) -> Some (int_of_n c, call_of tok, int_of_n idx)
       | _ -> None) evs in
     let served = List.sort compare served in
-    let dropped = List.sort compare (List.filter_map (function EvDropNoWorker c -> Some (int_of_n c) | _ -> None) evs) in
+    (* a connection dropped for want of a live worker is seen by its client as a close without greeting; an abortive client (op A)
+       is no longer there to see it *)
+    let dropped = List.sort compare (List.filter_map (function
+      | EvDropNoWorker c when not (List.mem (int_of_n c) !abortive) -> Some (int_of_n c) | _ -> None) evs) in
     let nw = List.fold_left (fun m wk -> max m (int_of_n wk.w_idx + 1)) 0 st'.ws in
     let act = List.init nw (fun i -> List.fold_left (fun a wk ->
       if int_of_n wk.w_idx = i then a + List.length wk.w_queue + List.length wk.w_picked else a) 0 st'.ws) in
@@ -333,7 +346,7 @@ let bld (line : string) : string =
   let lz = z_of_int l in
   let ops = List.filter (fun s -> s <> "") (String.split_on_char ' ' (List.assoc "ops" fields)) in
   let st0 = init (nat_of_int w) kinds in
-  poisoned := [];
+  poisoned := []; abortive := [];
   let (_, outs) = List.fold_left (fun (acc, outs) o ->
     let (acc', s) = bld_step lz call_of acc o in (acc', s :: outs)) ((st0, 0), []) ops in
   String.concat " ; " (List.rev outs)
@@ -350,7 +363,7 @@ let bldgen (line : string) : string =
   let has c = String.contains flags c in
   let nl = List.length kinds in
   let acc = ref (init (nat_of_int w) kinds, 0) in
-  poisoned := [];
+  poisoned := []; abortive := [];
   let out = ref [] in
   let emit o = let (a, _) = bld_step lz call_of !acc o in acc := a; out := o :: !out in
   for _ = 1 to geti "len" do
@@ -360,6 +373,11 @@ let bldgen (line : string) : string =
     let c = ref [] in
     let add wgt o = for _ = 1 to wgt do c := o :: !c done in
     add 6 `C;
+    (* an abortive client's service call ends by itself, at a moment of its own choosing: with several workers that moment decides
+       which worker takes the next connection, so there the client is only used where it is dispatched at once and alone;
+       with one worker every interleaving ends in the same settled state and it may also wait in a backlog (paused, saturated) *)
+    if has 'a' && (w = 1 || (not backoff && not st.paused && available st.av && List.for_all (fun ls -> ls.l_backlog = []) st.lsts))
+    then add (if w = 1 then 3 else 2) `A;
     if picked <> [] then add 5 `F;
     if has 'c' then (if st.paused then add 4 `R else add 1 `P; if rand 8 = 0 then add 1 (if st.paused then `P else `R));
     (* bursts of commands issued back to back; a redundant first command followed by its opposite is the interesting shape *)
@@ -376,6 +394,7 @@ let bldgen (line : string) : string =
     (* ... except for one Pause, whose effect does not depend on when the deadline passes: nothing is observable until Resume *)
     (match (if backoff then (if has 'c' && not st.paused && rand 4 = 0 then `P else `T) else pick_from !c) with
      | `C -> emit (Printf.sprintf "c%d" (rand nl))
+     | `A -> emit (Printf.sprintf "A%d" (rand nl))
      | `F -> emit (Printf.sprintf "f%d" (pick_from picked))
      | `P -> emit "P" | `R -> emit "R"
      | `Q -> let shapes = if st.paused then [| "PR"; "PR"; "PPR"; "RP"; "RPR"; "PRP"; "RR" |] else [| "RP"; "RP"; "RRP"; "PR"; "PRP"; "RPR"; "PP" |] in
